@@ -26,6 +26,12 @@ def format_map_key_value_data_type_conditions(
                 val = i.callable.kwargs["value"]
             elif i.callable.name == "in_":
                 val = " or ".join(str(j) for j in i.callable.kwargs["value"])
+            else:
+                # any other length comparison: show the comparison itself
+                args = [repr(j) for j in i.callable.args] + [
+                    f"{k}={v!r}" for k, v in i.callable.kwargs.items()
+                ]
+                val = f"{i.callable.name}({', '.join(args)})"
             out_i += f"length: {val}"
 
         elif i.callable.name == "equal_to":
